@@ -313,6 +313,8 @@ theorem handler_npu (u : Unit) (e : Ev) : (∀ h ∈ u.before e, ∀ b, NPU (h b
     · exact NPU.rememberAfterAuth _
     · exact NP.toNPU (NP.rememberAfterReset _)
     · exact NP.toNPU (NP.expireAfterAuth _)
+    · exact NP.toNPU (NP.expireAfterAuth _)
+    · exact NP.toNPU (NP.expireAfterAuth _)
 
 theorem NPU.fireBefore (e : Ev) : NPU (M.fireBefore e) := by
   unfold M.fireBefore
@@ -360,6 +362,8 @@ theorem NP.fireAfter (e : Ev) (he : e ≠ .auth) (he2 : e ≠ .oauth2) : NP (M.f
   · exact absurd rfl he2
   · exact NP.rememberAfterReset _
   · exact absurd rfl he
+  · exact absurd rfl he2
+  · exact NP.expireAfterAuth _
 
 syntax "np_step" : tactic
 macro_rules
